@@ -67,6 +67,8 @@ struct Obs {
     keys_id: String,
     points: BTreeMap<u64, String>,
     secrets: BTreeMap<u64, String>,
+    /// slot kind: false = stub, true = ready channel
+    ready: bool,
 }
 
 #[derive(Clone, Debug)]
@@ -189,7 +191,7 @@ fn observe(node: &Arc<Node>, id: &ChannelId, extra_secret_nums: &[u64], errs: &m
             Ok(())
         });
     }
-    Some(Obs { basepoints, keys: keyv, keys_id: hexs(&keys.channel_keys_id()), points, secrets })
+    Some(Obs { basepoints, keys: keyv, keys_id: hexs(&keys.channel_keys_id()), points, secrets, ready })
 }
 
 fn permutations(n: usize) -> Vec<Vec<usize>> {
@@ -281,6 +283,8 @@ fn gen_history(rng: &mut Rng, perm: &[usize], with_setup: &[bool]) -> Vec<Op> {
     ops.push(Op::Observe);
     ops.push(Op::Restart);
     ops.push(Op::Observe);
+    ops.push(Op::Restart); // and a second time, from what the first restored node left in the store
+    ops.push(Op::Observe);
     if rng.chance(1, 2) {
         ops.push(Op::New(perm[0])); // creating an existing channel again returns the same slot
         ops.push(Op::Observe);
@@ -316,6 +320,8 @@ fn hist(args: &Args) {
     let mut stub_obs = 0u64;
     let mut ready_obs = 0u64;
     let mut lnd_order_dependent = 0u64;
+    let mut n_obs_perm = 0u64;
+    let mut n_lookup_missing = 0u64;
     let mut lnd_trials = 0u64;
     for world_ix in 0..args.n {
         let seed = match world_ix {
@@ -372,10 +378,15 @@ fn hist(args: &Args) {
             let mut node = world.new_node();
             let node_id = node.get_id();
             n_runs += 1;
+            // what this run did to each channel: created, set up (then it has every id it was given)
+            let mut created = vec![false; k];
+            let mut setup_done = vec![false; k];
+            let mut restarts_in_run = 0u64;
             for (op_ix, op) in ops.iter().enumerate() {
                 match op {
                     Op::New(i) => {
                         node.new_channel(ids[*i].1, &ids[*i].0, &node).expect("new_channel");
+                        created[*i] = true;
                     }
                     Op::Setup(i) => {
                         let r = node.setup_channel(
@@ -386,30 +397,58 @@ fn hist(args: &Args) {
                         );
                         if r.is_ok() {
                             n_setup += 1;
+                            setup_done[*i] = true;
                         }
                     }
                     Op::Restart => {
                         node = world.restart(&node_id);
                         n_restart += 1;
+                        restarts_in_run += 1;
                     }
                     Op::Random => {
                         node.new_channel_with_random_id(&node).expect("random channel");
                     }
                     Op::Observe => {
                         for i in 0..k {
+                          // every id the channel has: id0, and the permanent id once it was set up with one
+                          let mut lookups: Vec<(ChannelId, &'static str)> = vec![(chan_ids[i].clone(), "id0")];
+                          if setup_done[i] {
+                              if let Some(p) = &perm_ids[i] {
+                                  lookups.push((p.clone(), "permanent id"));
+                              }
+                          }
+                          for (lookup_id, via) in lookups {
                             let mut errs = vec![];
                             // the deep secrets only at the last observation of the first run
-                            let deep = run_ix == 0 && op_ix + 1 == ops.len();
+                            let deep = run_ix == 0 && op_ix + 1 == ops.len() && via == "id0";
                             let ex: &[u64] = if deep { &extra } else { &[] };
-                            if let Some(o) = observe(&node, &chan_ids[i], ex, &mut errs) {
+                            let obs = observe(&node, &lookup_id, ex, &mut errs);
+                            if obs.is_none() && created[i] {
+                                n_lookup_missing += 1;
+                                violations.push(json!({
+                                    "what": format!("a channel that exists is not found under its {} (after {} restart(s) in this history)", via, restarts_in_run),
+                                    "id": i, "looked_up_by": via, "run": run_ix, "op": op_ix}));
+                            }
+                            if let Some(o) = obs {
                                 n_obs += 1;
+                                if via != "id0" {
+                                    n_obs_perm += 1;
+                                }
                                 if o.secrets.is_empty() {
                                     stub_obs += 1
                                 } else {
                                     ready_obs += 1
                                 }
+                                // the slot kind belongs to the comparison: set up once, ready under every id, also after restarts
+                                if o.ready != setup_done[i] {
+                                    violations.push(json!({
+                                        "what": format!("the slot under the {} is a {} although the channel {} (after {} restart(s) in this history): the keys that can be asked for differ",
+                                                        via, if o.ready { "ready channel" } else { "stub" },
+                                                        if setup_done[i] { "was set up" } else { "was never set up" }, restarts_in_run),
+                                        "id": i, "looked_up_by": via, "run": run_ix, "op": op_ix}));
+                                }
                                 for e in errs {
-                                    violations.push(json!({"what": e, "id": i, "run": run_ix, "op": op_ix}));
+                                    violations.push(json!({"what": e, "id": i, "looked_up_by": via, "run": run_ix, "op": op_ix}));
                                 }
                                 match &mut canon[i] {
                                     None => canon[i] = Some((o, run_ix, op_ix)),
@@ -442,14 +481,17 @@ fn hist(args: &Args) {
                                                 _ => {}
                                             }
                                         }
+                                        diff.dedup();
                                         if !diff.is_empty() {
                                             violations.push(json!({
-                                                "what": format!("{} of one channel id differ between two histories", diff.join(", ")),
-                                                "id": i, "first": {"run": *r0, "op": *o0}, "second": {"run": run_ix, "op": op_ix}}));
+                                                "what": format!("{} of one channel (looked up by its {}, after {} restart(s)) differ from what the same channel showed in another history / at another moment",
+                                                                diff.join(", "), via, restarts_in_run),
+                                                "id": i, "looked_up_by": via, "first": {"run": *r0, "op": *o0}, "second": {"run": run_ix, "op": op_ix}}));
                                         }
                                     }
                                 }
                             }
+                          }
                         }
                     }
                 }
@@ -540,7 +582,7 @@ fn hist(args: &Args) {
     emit(
         "STATS",
         json!({"kind": "keys-hist", "worlds": args.n, "runs": n_runs, "observations": n_obs, "stub_observations": stub_obs,
-               "ready_observations": ready_obs, "restarts": n_restart, "setups": n_setup, "coq_cases": n_cases,
+               "ready_observations": ready_obs, "observations_by_permanent_id": n_obs_perm, "lookups_missing": n_lookup_missing, "restarts": n_restart, "setups": n_setup, "coq_cases": n_cases,
                "lnd_control_trials": lnd_trials, "lnd_control_order_dependent": lnd_order_dependent}),
     );
 }
